@@ -1137,7 +1137,7 @@ pub(crate) fn gen_message(r: &mut Rng, rec: &mut Recorder, tier1_only: bool, req
     }
 }
 
-fn mutate(r: &mut Rng, buf: &mut Vec<u8>) -> &'static str {
+pub(crate) fn mutate(r: &mut Rng, buf: &mut Vec<u8>) -> &'static str {
     if buf.is_empty() {
         buf.push(r.byte());
         return "grow";
